@@ -146,6 +146,15 @@ func (w *W) Exec(op string) error {
 		return w.opMeltQuote(op, a, -1, true)
 	case "meltqpi": // MPP partial (1 sat) melt quote on the invoice of own mint quote qi
 		return w.opMeltQuote(op, 1, ints(arg(1))[0], true)
+	case "meltqpm": // MPP partial melt quote with an arbitrary msat part (0, sub-sat, non-round) of an external 8 sat invoice
+		msat, _ := strconv.ParseUint(arg(1), 10, 64)
+		inv := w.LN.NewExternalInvoice(8)
+		mq, err := w.M.M.RequestMeltQuote(nut05.PostMeltQuoteBolt11Request{Request: inv.Request, Unit: "sat", Options: map[string]nut05.MppOption{"mpp": {AmountMsat: msat}}})
+		w.note(op, err)
+		if err == nil {
+			w.Melts = append(w.Melts, &TMelt{Q: mq, Hash: inv.Hash, Internal: -1, Partial: true})
+		}
+		return nil
 	case "meltqm": // external invoice whose amount is not a whole number of sats (msat)
 		msat, _ := strconv.ParseUint(arg(1), 10, 64)
 		return w.opMeltQuoteRaw(op, w.LN.NewExternalInvoiceMsat(msat).Request, "", -1)
